@@ -21,7 +21,7 @@ pub fn run(ctx: &Ctx) -> PropReport {
     let mut p = GenParams::default();
     p.ticks = ctx.tier.pick((250, 1200), (2000, 5000));
     let rule = "C01's scenario space, both predictors; for every AdvanceFrame request (first simulations and resimulations) and every player: local => Confirmed and true value; Confirmed => frame <= newest received (session accessor AND network ledger) and true value; Predicted => frame > newest received, player connected, value == predictor(newest received true input) or default if none; Disconnected => player disconnected before that frame and default value; frames at or below confirmed_frame() keep their values in later resimulations; confirmed_frame() monotone; non-trivial = >=1 predicted input later corrected AND >=1 prediction reused for >=2 consecutive frames";
-    rep.parts.push(run_random(ctx, "p2p", rule, || scenario(&p), ctx.tier.pick(1600, 6000), eval));
+    rep.parts.push(run_random(ctx, "p2p", rule, || scenario(&p), ctx.tier.pick(6000, 24000), eval));
     rep.floors.push(("p2p".into(), 0.3));
     rep.assumptions = vec!["connection status (disconnected flag, last received frame) is read through the verif-hooks accessor right after each call; cross-checked against the network ledger".into()];
     rep
